@@ -44,6 +44,12 @@ func cause(p *ReqPlan) string {
 		parts = append(parts, "auth:refuse")
 	}
 	for _, d := range p.Auth {
+		if d.Kind == "panic" {
+			parts = append(parts, "auth:panic")
+			break
+		}
+	}
+	for _, d := range p.Auth {
 		if d.CancelCtx {
 			parts = append(parts, "auth:cancelled-ctx")
 			break
@@ -66,6 +72,9 @@ func cause(p *ReqPlan) string {
 	}
 	if p.Ctl.HeaderK != "" {
 		parts = append(parts, "ctl:header")
+	}
+	if p.Ctl.RetJSON == "null" || p.Ctl.RetJSON == "[]" {
+		parts = append(parts, "ctl:nil-or-empty-result")
 	}
 	if len(p.Chunks) > 0 {
 		parts = append(parts, "chunked")
@@ -220,8 +229,20 @@ func finalSignature(v *Violation) string {
 	}
 	switch {
 	case focus.Class == "registration" || focus.Class == "spec":
+	case v.Class == "served-longer-path-below-trailing-param":
+		// the stray kind that happened to produce the longer path does not matter
 	case strings.HasPrefix(focus.Class, "stray"):
-		parts = append(parts, focus.Class)
+		collides := false
+		for _, t := range focus.Tags {
+			if t == "value-equals-sibling-literal" {
+				collides = true
+			}
+		}
+		if collides {
+			parts = append(parts, "stray:value-equals-sibling-literal")
+		} else {
+			parts = append(parts, focus.Class)
+		}
 	default:
 		parts = append(parts, cause(focus))
 		if v.Property == "C02" {
